@@ -158,11 +158,14 @@ def kill_job(j):
 
 def sigint_job(j):
     cfg, saved, args, n, adds_only, seed = j
+    # n: index of the parity write of level 0 before which SIGINT arrives, or (level, index, signal number): the tool promises the
+    # same graceful stop for INT, TERM, HUP and QUIT; a signal before a write of the LAST level arrives between the level writes of a stripe
+    lvl, idx, signo = (0, n, 2) if isinstance(n, int) else tuple(n)
     L = X.materialize(cfg, saved, seed)
     pre_tree = X.data_tree(L)
     pre_content = L.content()
-    res = L.run("sync", *args, env={"VP_SIGINT": "*/p0/*:pwrite:%d" % n})
-    where = "sync %s SIGINT at parity write %d" % (" ".join(args), n)
+    res = L.run("sync", *args, env={"VP_SIGINT": "*/p%d/*:pwrite:%d" % (lvl, idx), "VP_SIGNO": str(signo)})
+    where = "sync %s signal %d before write %d of parity level %d" % (" ".join(args), signo, idx, lvl)
     v = []
     if res.signal is not None:
         v.append(dict(kind="sigint-not-graceful", where=where, signal=res.signal))
@@ -250,6 +253,11 @@ def run(ctx):
             npw = sum(1 for c in ref if c[0] == "pwrite" and c[1].startswith("p0/"))
         jobs = [("kill", (cfg, saved, args, k, mode, ref, adds_only, ctx.seed)) for k, mode in crash.kill_points(calls)]
         jobs += [("sigint", (cfg, saved, args, n, adds_only, ctx.seed)) for n in range(npw)]
+        signals = (15,) if tier == "quick" else (15, 1, 3)
+        jobs += [("sigint", (cfg, saved, args, (lvl, n, sg), adds_only, ctx.seed)) for sg in signals
+                 for lvl in sorted({0, cfg.levels - 1}) for n in range(npw)]
+        if cfg.levels > 1:
+            jobs += [("sigint", (cfg, saved, args, (cfg.levels - 1, n, 2), adds_only, ctx.seed)) for n in range(npw)]
         ctx.set("sync_calls[%s]" % label, len(ref))
         done = 0
         for j, r in par.pmap(dispatch, jobs, deadline=ctx.deadline):
